@@ -1,9 +1,9 @@
 (* C09 — pFBA, linear MOMA and ROOM solve their documented secondary problems optimally.
    This file only states the property theorems and prints their assumptions. *)
-From Coq Require Import QArith List Bool.
-From Cobra.LP Require Import Defs Cert Fba.
+From Coq Require Import QArith List Bool Lqa.
+From Cobra.LP Require Import Defs Cert Fba Milp.
 From Cobra.Optimize Require Import Model.
-From Cobra.Secondary Require Import Aux Pfba PfbaProofs AuxLp Moma MomaProofs.
+From Cobra.Secondary Require Import Aux Pfba PfbaProofs AuxLp Moma MomaProofs Room RoomProofs.
 Import ListNotations.
 Open Scope Q_scope.
 
@@ -134,3 +134,72 @@ Proof.
   split; [exact O|]. split; [|reflexivity].
   exact (proj1 (moma_lp_equiv toy4 [10; 10; 10] [(4, 0); (4, 0); (4, 0)] 4 [6; 6; 6] V eq_refl O)).
 Qed.
+
+(* ------------------------------------------------ ROOM ------------------------------------------------ *)
+
+(* optimality of a problem with binary columns, certified by one LP certificate per assignment of the binaries
+   (all 2^k assignments are generated inside Coq) *)
+Theorem C09_check_milp_sound : forall p ints x certs, check_milp p ints x certs = true -> milp_opt p ints x.
+Proof. exact check_milp_sound. Qed.
+Print Assumptions C09_check_milp_sound.
+
+(* the documented switch: y_i = 0 confines the flux to [w_l, w_u], y_i = 1 leaves exactly the reaction's own bounds *)
+Theorem C09_room_switch : forall m ref wub delta eps i v,
+  let lb := fin (rx_lb (nth i (rxns m) dr)) in let ub := fin (rx_ub (nth i (rxns m) dr)) in
+  ((aux_ok (ax_up (room_aux m ref wub delta eps) i) v 0 /\ aux_ok (ax_lo (room_aux m ref wub delta eps) i) v 0) <->
+   (band_lo delta eps (nth i ref 0) <= v <= band_hi delta eps (nth i ref 0))) /\
+  ((aux_ok (ax_up (room_aux m ref wub delta eps) i) v 1 /\ aux_ok (ax_lo (room_aux m ref wub delta eps) i) v 1) <->
+   (lb <= v <= ub)).
+Proof. exact room_switch. Qed.
+Print Assumptions C09_room_switch.
+
+(* The mixed problem built by add_room(linear=False): an optimum projects onto a flux vector of the model with the
+   least number of reactions outside the tolerance band, and the objective value is that number.  `wub` is the upper
+   bound of room_old_objective: PosInf for the repaired code (fixes/room-old-objective-bound), in which case
+   room_feasible is just membership in the flux polytope.                                          *)
+Theorem C09_room_milp_equiv : forall m ref wub delta eps zs w ys,
+  valid_model m -> finite_model_b m = true -> length zs = length (rxns m) ->
+  milp_opt (room_lp m ref wub delta eps false) (room_ints m false) (flat zs ++ w :: ys) ->
+  room_opt m ref wub delta eps (nets zs) /\
+  vsum ys == count_out (length (rxns m)) delta eps ref (nets zs) /\
+  - value (room_lp m ref wub delta eps false) (flat zs ++ w :: ys) == count_out (length (rxns m)) delta eps ref (nets zs).
+Proof. exact room_milp_equiv. Qed.
+Print Assumptions C09_room_milp_equiv.
+
+Theorem C09_room_spec_to_milp : forall m ref wub delta eps v,
+  valid_model m -> finite_model_b m = true -> room_feasible m wub v ->
+  let ys := map (outside delta eps ref v) (seq 0 (length (rxns m))) in
+  milp_feasible (room_lp m ref wub delta eps false) (room_ints m false) (flat (splits v) ++ dot (raw_obj m) v :: ys) /\
+  vsum ys == count_out (length (rxns m)) delta eps ref v.
+Proof. exact room_spec_to_milp. Qed.
+Print Assumptions C09_room_spec_to_milp.
+
+(* linear=True solves the documented relaxation (0 <= y <= 1, delta = epsilon = 0) over the same polytope *)
+Theorem C09_room_linear_equiv : forall m ref wub delta eps zs w ys,
+  valid_model m -> length zs = length (rxns m) ->
+  is_opt (room_lp m ref wub delta eps true) (flat zs ++ w :: ys) ->
+  room_lin_feasible m ref wub (nets zs) ys /\
+  (forall v' ys', room_lin_feasible m ref wub v' ys' -> vsum ys <= vsum ys') /\
+  - value (room_lp m ref wub delta eps true) (flat zs ++ w :: ys) == vsum ys.
+Proof. exact room_linear_equiv. Qed.
+Print Assumptions C09_room_linear_equiv.
+
+(* with the unrepaired bound the specification carries an extra constraint that can empty it: the documented
+   problem of `toy_min` (minimise R2, R1 knocked out, reference (2, -1) with objective value -1) has the point
+   (0, 0), but no flux vector satisfies the extra constraint  objective <= -1                      *)
+Definition toy_min : fbamodel :=
+  mkFba 1 [mkRxn [-1] (Fin 0) (Fin 0) 0; mkRxn [-1] (Fin (-1)) (Fin 10) 1] false.
+Example C09_room_bound_matters :
+  room_feasible toy_min PosInf [0; 0] /\ forall v, ~ room_feasible toy_min (Fin (-1)) v.
+Proof.
+  split.
+  - split; [apply feasible_b_ok; reflexivity|exact I].
+  - intros v [[Hb Hr] Hobj]. cbn in Hb, Hr, Hobj.
+    inversion Hb as [|b1 x1 l1 l1' [A1 A2] Hb1]; subst. inversion Hb1 as [|b2 x2 l2 l2' [B1 B2] Hb2]; subst.
+    inversion Hb2; subst. inversion Hr as [|r rs [R1 R2] _]; subst. cbn in *. lra.
+Qed.
+
+(* non-vacuity of the enumeration checker: two binaries, x0 + x1 >= 1, minimise x0 + x1 *)
+Example C09_milp_toy :
+  milp_opt (mkLP [(Fin 0, Fin 1); (Fin 0, Fin 1)] [mkRow [1; 1] (Fin 1) PosInf] [-1; -1]) [0%nat; 1%nat] [1; 0].
+Proof. apply (check_milp_sound _ _ _ [BInf [-1]; BUp []; BUp []; BUp []]). vm_compute. reflexivity. Qed.
